@@ -35,7 +35,7 @@ def crc_step_exhaustive(tmp, tier, seed, goenv):
 
 
 PROP = {
-    "coq": ["C06", "C06b", "C06c", "C06s", "C06t", "C06d", "C06e"],
+    "coq": ["C06", "C06b", "C06c", "C06s", "C06t", "C06d", "C06e", "C06u"],
     "confirm_scenarios": ['rtuseqbad'],
     "pre": [regen_src],
     "extra": [crc_step_exhaustive, replay_src({'crc'})],
